@@ -136,5 +136,9 @@ LawAnchorsConsistent == AtStart => LET g == Geo  b == B(g)  A(pos) == AnchorOf(b
     /\ 2 * A("center")[1] = A("bottom-left")[1] + A("top-right")[1]                                    \* centre = midpoint of the diagonal
     /\ 2 * A("center")[2] = A("bottom-left")[2] + A("top-right")[2]
     /\ <<A("bottom-left")[1], A("bottom-left")[2], A("top-right")[1], A("top-right")[2]>> = [i \in 1..4 |-> 2 * b[i]]
-Terminates == <>(pc = "done")
+\* termination without a liveness graph: every step lowers a rank, and no state short of "done" is stuck
+Rank == CASE pc = "convert" -> 4 [] pc = "bounds" -> 3 [] pc = "features" -> 2 [] pc = "anchors" -> 1 [] OTHER -> 0
+RankDecreases == [][Rank' < Rank]_vars
+NeverStuck    == pc # "done" => ENABLED Next
+Terminates == <>(pc = "done")        \* checked as a liveness property on the "cov" sub-universe only
 =============================================================================
